@@ -121,7 +121,59 @@ def run(ctx, rep):
     rr = rep.rule("R.reach", "each validator is reached from Chart.from_file on every path of its caller and its ValueError "
                              "escapes: no handler for ValueError/Exception/bare encloses any call on the chain", floor=5)
     escape.check_reach_and_escape(ctx, rr, T)
+    rres = rep.rule("R.resolution-field", "the resolution the validators see is the integer written on the [Song] Resolution line: the "
+                                          "field's converter is int and its recogniser captures digits only (no default, clamp or "
+                                          "fallback between the file and the positive-resolution guard)", floor=3)
+    check_resolution_field(ctx, rres)
     rch = rep.rule("chain", "file -> lines (read().splitlines(), utf-8-sig) -> framing -> section route -> dispatcher -> builders: every link "
                             "hands the lines on unchanged", floor=10)
     from .chain import check_chain
     check_chain(ctx, rch, "sync", strict="bpm")
+
+
+def check_resolution_field(ctx, r):
+    from ..constfold import Callable_, FoldedObject, NotConstant, Regex
+    from .. import rx
+    from .lang import P
+    from .lib import fail
+    mod = ctx.prog.modules.get("chartparse.metadata")
+    f = ctx.func("chartparse.metadata.Metadata.from_chart_lines")
+    table = None
+    for name in (mod.assigns if mod is not None else ()):
+        t = ctx.ev.global_value(mod, name)
+        if t[0] == "dict" and len(t[1]) >= 20:
+            table = t
+    if table is None:
+        fail(r, ctx, f, f.node, "cannot find the module-level field-spec table")
+        return
+    try:
+        specs = ctx.fold.fold(table)
+    except NotConstant as e:
+        fail(r, ctx, f, f.node, f"the field-spec table does not fold to constants: {e}")
+        return
+    spec = specs.get("resolution")
+    r.inst("field table: entry 'resolution'")
+    if not isinstance(spec, FoldedObject):
+        fail(r, ctx, f, f.node, "the field-spec table has no foldable 'resolution' entry")
+        return
+    try:
+        fn = ctx.fold.getattr(spec, "processing_fn")
+        prog = ctx.fold.getattr(spec, "regex_prog")
+    except Exception as e:
+        fail(r, ctx, f, f.node, f"the 'resolution' entry has no foldable converter / recogniser: {e}")
+        return
+    r.inst(f"resolution converter: {fn!r}")
+    if not (isinstance(fn, Callable_) and fn.term[:2] == ("builtin", "int")):
+        fail(r, ctx, f, f.node, f"the Resolution converter must be int (the written integer reaches the positive-resolution guard unchanged); "
+                                f"found {fn!r}: a fallback, clamp or default here hides `Resolution = 0`")
+    if not isinstance(prog, Regex):
+        fail(r, ctx, f, f.node, f"the Resolution recogniser does not fold to a compiled pattern: {prog!r}")
+        return
+    r.inst(f"resolution recogniser {prog.pattern!r}: group 1 is digits")
+    try:
+        w = rx.group_contents_included(P(prog.pattern, "match"), 1, P(r"\d+", "fullmatch"))
+    except Exception as e:
+        fail(r, ctx, f, f.node, f"cannot decide the Resolution recogniser's capture: {e}")
+        return
+    if w is not None:
+        fail(r, ctx, f, f.node, f"on the line {w[0]!r} the Resolution recogniser captures {w[1]!r}, which is not a digit string", witness=w[0])
